@@ -54,6 +54,7 @@ type script struct {
 	shared  bool // one read-write descriptor is opened during setup and used by all threads (swrite/sflush/sclose), closed in the final phase
 	tree    bool // initial content written through a descriptor (DagModifier decides the shape) instead of PutNode of a single inline-data node
 	delta   int  // BoundDelta (quick and thorough)
+	thDelta int  // if non-zero: BoundDelta in the thorough tier instead of delta
 	thOnly  bool // thorough tier only
 	small   bool // two-thread scenario small enough to be explored without a bound in thorough
 }
@@ -803,14 +804,15 @@ func scripts() []*script {
 		{name: "s8-dchmod-write", small: true, threads: [][]call{{cm("dchmod", 0o755)}, {w("write", 0)}}},
 		{name: "s8-dflush-pwrite-read", threads: [][]call{{c("dflush")}, {wp("write", 0)}, {cp("read", "/d/f")}}},
 		{name: "s8-dflush-pwritens", threads: [][]call{{c("dflush")}, {wp("writens", 0), cp("read", "/d/f")}}},
+		// S3 with a publish function: a republisher thread and its timers take part (expensive: every armed timer is an alternative at every point)
+		{name: "s3-pwrite-flushpath-root-pub", pub: true, delta: -1, threads: [][]call{{wp("write", 0)}, {cp("flushpath", "/")}}},
+		{name: "s3-pwrite-list-flushpath-pub", pub: true, delta: -1, thDelta: -2, threads: [][]call{{wp("write", 0)}, {c("list")}, {cp("flushpath", "/")}}},
+		{name: "s3-write-flushpath-file-pub", pub: true, delta: -1, threads: [][]call{{w("write", 0)}, {cp("flushpath", "/d/f")}}},
 		// thorough only: longer scripts / more threads
 		{name: "t-write2-list-rootflush-read", thOnly: true, threads: [][]call{{w("write", 0), w("wflush", 1)}, {c("list"), c("names")}, {c("rootflush"), c("read")}}},
 		{name: "t-three-writers", thOnly: true, threads: [][]call{{wp("write", 0), cp("read", "/d/f")}, {wp("writens", 1)}, {wp("wflush", -1)}}},
 		{name: "t-four-threads", thOnly: true, delta: -1, threads: [][]call{{w("write", -1)}, {c("read")}, {c("list")}, {c("fsync"), c("fflush")}}},
-		{name: "t-lookup-chmod-dir-write-chunk4", thOnly: true, chunk4: true, threads: [][]call{{c("lookup"), cm("dchmod", 0o700)}, {wp("write", 0), wp("write", 1)}, {c("fflush"), cp("read", "/d/f")}}},
-		// S3 with a publish function: a republisher thread and its timers take part (most expensive, kept last)
-		{name: "s3-pwrite-list-flushpath-pub", pub: true, delta: -1, threads: [][]call{{wp("write", 0)}, {c("list")}, {cp("flushpath", "/")}}},
-		{name: "s3-write-flushpath-file-pub", pub: true, delta: -1, threads: [][]call{{w("write", 0)}, {cp("flushpath", "/d/f")}}},
+		{name: "t-lookup-chmod-dir-write-chunk4", thOnly: true, chunk4: true, threads: [][]call{{c("lookup"), cm("dchmod", 0o700)}, {wp("write", 0)}, {c("fflush"), cp("read", "/d/f")}}},
 	}
 }
 
@@ -823,6 +825,9 @@ func scenarios(r *eng.Run) []*vexp.Scenario {
 			continue // (worker processes, r == nil, know every scenario)
 		}
 		delta := s.delta
+		if thorough && s.thDelta != 0 {
+			delta = s.thDelta
+		}
 		if s.small && thorough {
 			delta = 40 // effectively unbounded
 		}
